@@ -144,8 +144,8 @@ def items(tier, seed):
     for y0 in range(1896, 2105, 19):
         out.append(("dayofyear", y0, min(y0 + 18, 2104)))
     for dat in sorted({row["dat"] for row in fr.eop_table()[0].values()}):
-        for h0 in (0, 8, 16):
-            out.append(("seconds2hms", dat, h0, 8))
+        for h0 in range(0, 24, 4):
+            out.append(("seconds2hms", dat, h0, 4))
     out.append(("sidereal", seed, tier))
     n = len(_table_days())
     step = 80
@@ -514,11 +514,46 @@ def _run_seconds2hms(res, item):
         # exact decomposition: integer hour/minute, fields in range, and they add up (rounding 86400*2^-52 = 2e-11)
         ok = h == math.floor(h) and mi == math.floor(mi) and 0 <= mi <= 59 and 0.0 <= sec <= 60.0 and 0 <= h <= 24
         ok = ok and abs(h * 3600 + mi * 60 + sec - tt) <= 1e-9
-        ok = ok and h == math.floor(tt / 3600 + 1e-12) and (sec < 60.0 - 1e-6 or sec > 60.0 - 1e-9 or True)
+        # tt = whole second + 0.184: never within rounding of a minute/hour edge, so the fields are decided exactly
+        ok = ok and h == math.floor(tt / 3600) and mi == math.floor((tt % 3600) / 60) and abs(sec - tt % 60.0) <= 1e-9
         near = (tt % 60.0) < 1.0 or (tt % 60.0) > 59.0
         res.case("time/seconds2hms", {"tt_seconds": tt, "dat": dat}, ok, nontrivial=near or tt >= 86400.0,
                  signature="C04/time/seconds2hms", observed=[h, mi, sec], expected=tt, item=item)
     res.observe(h, mi, sec)
+    # whole-second TT (UTC instants hh:mm:ss.816 for the table's TAI offsets): fields must stay in range, and the
+    # TT conversion / the reduction must accept the instant
+    day = {35: date(2014, 5, 5), 36: date(2016, 5, 5), 37: date(2019, 5, 5)}.get(dat, _table_days()[0])
+    day0 = float(fr.days_since_j2000(datetime(day.year, day.month, day.day)))
+    for s in range(h0 * 3600, (h0 + nh) * 3600):
+        tt = float(s + dat + 33)
+        h, mi, sec = (float(v) for v in tconv.seconds2hms(tt))
+        neg = sec < 0.0
+        ok = h == math.floor(h) and mi == math.floor(mi) and 0 <= mi <= 59 and 0.0 <= sec < 60.0 and abs(h * 3600 + mi * 60 + sec - tt) <= 1e-9
+        minute_edge = tt % 60.0 == 0.0
+        res.case("time/seconds2hms_whole_second", {"tt_seconds": tt, "dat": dat, "neg_second": neg}, ok, nontrivial=minute_edge,
+                 signature="C04/tt_negative_second/seconds2hms" if neg else "C04/time/seconds2hms/whole_second",
+                 observed=[h, mi, sec], expected=[tt // 3600, (tt % 3600) // 60, tt % 60], item=item)
+        t = datetime(day.year, day.month, day.day) + timedelta(seconds=s, microseconds=816000)
+        try:
+            tt_s, ttt = tconv.utc2TerrestrialTime(t.year, t.month, t.day, t.hour, t.minute, t.second + 0.816, dat)
+            err = None
+        except Exception as exc:  # noqa: BLE001
+            tt_s, ttt, err = float("nan"), float("nan"), type(exc).__name__
+        exp_t = (day0 + tt / 86400.0) / 36525.0  # float is ample here: 1e-12 day / 36525 = 3e-17 century
+        ok = err is None and abs(float(tt_s) - tt) <= 1e-9 and abs(float(ttt) - exp_t) <= TOL_TTT
+        res.case("time/utc2TerrestrialTime_whole_second_tt", {"t": _iso(t), "dat": dat, "neg_second": neg}, ok, nontrivial=minute_edge,
+                 signature="C04/tt_negative_second/utc2TerrestrialTime" if (neg and err) else "C04/time/utc2TerrestrialTime/whole_second_tt",
+                 observed=[float(tt_s), float(ttt), err], expected=[tt, exp_t], item=item)
+        if minute_edge and fr.eop_table()[0][day]["dat"] == dat:
+            try:
+                rp = red.ReductionParams.build(t)
+                err = None
+            except Exception as exc:  # noqa: BLE001
+                rp, err = None, type(exc).__name__
+            ok = err is None and _maxabs(rp.rot_pnr, fr.FK5.from_table(t).pnr) <= TOL_PNR
+            res.case("reduction/whole_minute_tt", {"t": _iso(t), "dat": dat, "neg_second": neg}, ok, nontrivial=True,
+                     signature="C04/tt_negative_second/build" if (neg and err) else "C04/reduction/whole_minute_tt",
+                     observed=err, expected="reduction parameters", item=item)
     if h0 == 0:
         for tt in (0.0, 59.999999, 60.0, 61.5, 3599.999999, 3600.0, 43200.0, 86399.0, 86399.999, 86400.0, 86460.5):
             h, mi, sec = (float(v) for v in tconv.seconds2hms(tt))
@@ -693,3 +728,490 @@ def _run_sweep_sec(res, item):
             _check_tt(res, "time/utc2TerrestrialTime", th, tab[th.date()]["dat"], item, True)
             rp = red.ReductionParams.build(th)
             _cmp_reduction(res, "reduction_sweep", rp, fr.FK5.from_table(th), {"t": _iso(th), "kind": "subsecond"}, True, item)
+
+
+# ---------------------------------------------------------------------------------------------- ECI <-> ECEF
+def _run_eci_ecef(res, item):
+    t = _dt(item[1])
+    rp, pnr, w = _impl_mats(t)
+    omega = _own_omega(t)
+    ref = fr.FK5.from_table(t)
+    _cmp_reduction(res, "reduction", rp, ref, {"t": _iso(t), "kind": _date_kind(t)}, True, item)
+    boundary = _date_kind(t) != "plain" or (t.hour, t.minute, t.second) == (23, 59, 59)
+    prev = None
+    for rad in RADII:
+        for la in LATS:
+            for lo in LONS:
+                pos = _sph(rad, la, lo)
+                special = abs(la) == 90.0 or la == 0.0 or lo in (0.0, 90.0, -90.0, -180.0) or abs(lo) > 179.9
+                for vel in VELS:
+                    x = np.array(pos + list(vel))
+                    case = {"t": _iso(t), "radius": rad, "lat": la, "lon": lo, "vel": list(vel)}
+                    nt = boundary or special
+                    ptol = 2e-12 * rad  # ~1e4 ulp of the radius through two 3-matrix chains; defects are >= 1e-6*r
+                    vtol = 1e-12 + 2e-16 * rad  # omega*r*few ulp; LOD sign defect is 1.7e-12*r*... >= 1e-8 at LEO
+                    f = np.asarray(M.eci2ecef(x, t), dtype=float)
+                    b = np.asarray(M.ecef2eci(f, t), dtype=float)
+                    res.case("eci_ecef/roundtrip_eci", case, f.shape == (6,) and _maxabs(b[:3], x[:3]) <= ptol and _maxabs(b[3:], x[3:]) <= vtol,
+                             nontrivial=nt, signature="C04/eci_ecef/roundtrip/ecef2eci(eci2ecef)", observed=b, expected=x, item=item)
+                    g = np.asarray(M.ecef2eci(x, t), dtype=float)
+                    h = np.asarray(M.eci2ecef(g, t), dtype=float)
+                    res.case("eci_ecef/roundtrip_ecef", case, _maxabs(h[:3], x[:3]) <= ptol and _maxabs(h[3:], x[3:]) <= vtol,
+                             nontrivial=nt, signature="C04/eci_ecef/roundtrip/eci2ecef(ecef2eci)", observed=h, expected=x, item=item)
+                    ef = _compose_eci2ecef(x, pnr, w, omega)
+                    eg = _compose_ecef2eci(x, pnr, w, omega)
+                    res.case("eci_ecef/eci2ecef_reference", case, _maxabs(f[:3], ef[:3]) <= ptol and _maxabs(f[3:], ef[3:]) <= vtol,
+                             nontrivial=nt, signature="C04/eci_ecef/eci2ecef/" + ("pos" if _maxabs(f[:3], ef[:3]) > ptol else "vel"),
+                             observed=f, expected=ef, item=item)
+                    res.case("eci_ecef/ecef2eci_reference", case, _maxabs(g[:3], eg[:3]) <= ptol and _maxabs(g[3:], eg[3:]) <= vtol,
+                             nontrivial=nt, signature="C04/eci_ecef/ecef2eci/" + ("pos" if _maxabs(g[:3], eg[:3]) > ptol else "vel"),
+                             observed=g, expected=eg, item=item)
+                    # absolute agreement with the independent model (includes the designed 7e-10 rad sidereal slack)
+                    rf = ref.eci_to_ecef(x)
+                    res.case("eci_ecef/independent_model", case, _maxabs(f[:3], rf[:3]) <= 3e-9 * rad and _maxabs(f[3:], rf[3:]) <= 3e-9 * (7.5 + 7.3e-5 * rad),
+                             nontrivial=nt, signature="C04/eci_ecef/independent_model", observed=f, expected=rf, item=item)
+                    # rigid: lengths, and geometry relative to the previous lattice state
+                    nr = float(np.linalg.norm(x[:3]))
+                    ok = abs(np.linalg.norm(f[:3]) - nr) <= 1e-12 * nr and abs(np.linalg.norm(g[:3]) - nr) <= 1e-12 * nr
+                    if prev is not None:
+                        px, pf, pg = prev
+                        d0 = float(np.linalg.norm(x[:3] - px[:3]))
+                        dot0 = float(np.dot(x[:3], px[:3]))
+                        ok = ok and abs(np.linalg.norm(f[:3] - pf[:3]) - d0) <= 4e-12 * rad and abs(np.linalg.norm(g[:3] - pg[:3]) - d0) <= 4e-12 * rad
+                        ok = ok and abs(np.dot(f[:3], pf[:3]) - dot0) <= 1e-11 * rad * rad and abs(np.dot(g[:3], pg[:3]) - dot0) <= 1e-11 * rad * rad
+                    res.case("eci_ecef/rigid", case, bool(ok), nontrivial=nt, signature="C04/eci_ecef/rigid", observed=f, item=item)
+                    prev = (x, f, g)
+                res.observe(f, g)
+    # composites
+    for la, lo, alt in ((45.0, 179.999, 0.4), (-89.999, -90.0, 0.0), (0.0, 0.0, 35786.0), (90.0, 0.0, 1.0)):
+        lla = np.array([la * DEG, lo * DEG, alt])
+        got = np.asarray(M.lla2eci(lla, t), dtype=float)
+        exp = _compose_ecef2eci(fr.geodetic_to_ecef(*lla) + [0.0, 0.0, 0.0], pnr, w, omega)
+        rad = RE + alt
+        res.case("composite/lla2eci", {"t": _iso(t), "lla": list(lla)}, _maxabs(got[:3], exp[:3]) <= 2e-12 * rad and _maxabs(got[3:], exp[3:]) <= 1e-12 + 2e-16 * rad,
+                 nontrivial=True, signature="C04/composite/lla2eci", observed=got, expected=exp, item=item)
+        back = np.asarray(M.eci2lla(got, t), dtype=float)
+        ok = abs(back[0] - lla[0]) <= TOL_LAT and abs(back[2] - alt) <= REL_GEO * rad
+        if abs(la) != 90.0:
+            ok = ok and abs(fr.angle_diff(back[1], lla[1])) <= 1e-9
+        else:
+            res.either_way += 1
+        res.case("composite/eci2lla", {"t": _iso(t), "lla": list(lla)}, bool(ok), nontrivial=True,
+                 signature="C04/composite/eci2lla", observed=back, expected=lla, item=item)
+    # TEME -> ECEF (GMST of the UTC Julian date, polar motion): own composition, 1e-8 rad for the float JD
+    gm = fr.gmst_exact(fr.days_since_j2000(t))
+    r3 = fr.rot_axis(2, gm)
+    for x in ([7000.0, 0.0, 0.0, 0.0, 7.5, 0.0], [0.0, 0.0, 42164.0, 3.0, 0.0, 0.0], [-3000.0, 4000.0, -5000.0, 1.1, -6.9, 2.3]):
+        x = np.array(x)
+        got = np.asarray(M.teme2ecef(x, t), dtype=float)
+        r_pef = r3 @ x[:3]
+        v_pef = r3 @ x[3:] - np.array(fr.cross(omega, r_pef))
+        exp = np.concatenate((w.T @ r_pef, w.T @ v_pef))
+        nr = float(np.linalg.norm(x[:3]))
+        ok = got.shape == (6,) and _maxabs(got[:3], exp[:3]) <= 1e-8 * nr and _maxabs(got[3:], exp[3:]) <= 1e-8 * 8.0
+        ok = ok and abs(np.linalg.norm(got[:3]) - nr) <= 1e-12 * nr
+        res.case("teme2ecef", {"t": _iso(t), "x": list(x)}, bool(ok), nontrivial=boundary, signature="C04/teme2ecef",
+                 observed=got, expected=exp, item=item)
+
+
+# ---------------------------------------------------------------------------------------------- geodetic
+def _run_geodetic(res, item):
+    _, seed, tier, part = item
+    alts = [0.0, 0.4, 7000.0 - RE, 42164.0 - RE, 9 * RE]
+    pts = []
+    if part == 0:
+        for la in LATS + [30.0, -60.0, 1e-3, -1e-3, 89.0, -89.0]:
+            for lo in LONS + [180.0, -179.999, 45.0, -135.0, 1e-9]:
+                pts.append((la, lo, True))
+    else:
+        ph = (seed * 0.37) % 1.0
+        nla, nlo = (24, 16) if tier == "quick" else (90, 48)
+        for i in range(nla):
+            la = -89.5 + (i + ph) * 179.0 / nla
+            for j in range(nlo):
+                pts.append((la, -180.0 + (j + ph) * 360.0 / nlo, False))
+    for la, lo, corner in pts:
+        for alt in alts:
+            lat, lon = la * DEG, lo * DEG
+            case = {"lat": la, "lon": lo, "alt": alt}
+            special = corner and (abs(la) >= 89.0 or abs(la) <= 1e-3 or lo in (0.0, 90.0, -90.0, 180.0, -180.0) or abs(lo) > 179.9)
+            exp = fr.geodetic_to_ecef(lat, lon, alt)
+            rad = math.sqrt(sum(c * c for c in exp))
+            got = np.asarray(M.lla2ecef(np.array([lat, lon, alt])), dtype=float)
+            res.case("geodetic/lla2ecef_definition", case, got.shape == (6,) and _maxabs(got[:3], exp) <= 4e-16 * rad * 4 and _maxabs(got[3:], [0, 0, 0]) == 0.0,
+                     nontrivial=special, signature="C04/geodetic/lla2ecef", observed=got, expected=exp, item=item)
+            out = np.asarray(M.ecef2lla(np.array(exp + [0.0, 0.0, 0.0])), dtype=float)
+            hemi = "north" if la > 0 else ("south" if la < 0 else "equator")
+            ok = _finite(out) and out.shape == (3,) and abs(out[0] - lat) <= TOL_LAT and abs(out[2] - alt) <= REL_GEO * rad
+            polar = abs(la) == 90.0
+            if polar:
+                res.either_way += 1  # longitude is undefined at the poles
+            else:
+                ok = ok and abs(fr.angle_diff(out[1], lon)) <= 1e-12 and -math.pi <= out[1] <= math.pi
+            res.case("geodetic/ecef2lla_inverse", case, bool(ok), nontrivial=special, signature=f"C04/geodetic/ecef2lla/{hemi}/inverse",
+                     observed=out, expected=[lat, lon, alt], item=item)
+            # the returned triple satisfies the ellipsoid definition (own N(phi))
+            back = fr.geodetic_to_ecef(float(out[0]), float(out[1]), float(out[2])) if _finite(out) else [float("nan")] * 3
+            okc = _finite(back) and (_maxabs(back, exp) <= REL_GEO * rad if not polar else abs(back[2] - exp[2]) <= REL_GEO * rad and math.hypot(back[0], back[1]) <= 1e-9 * rad)
+            res.case("geodetic/ecef2lla_ellipsoid_definition", case, bool(okc), nontrivial=special,
+                     signature=f"C04/geodetic/ecef2lla/{hemi}/definition", observed=back, expected=exp, item=item)
+            rt = np.asarray(M.lla2ecef(out), dtype=float) if _finite(out) else np.full(6, np.nan)
+            res.case("geodetic/roundtrip", case, _finite(rt) and _maxabs(rt[:3], exp) <= REL_GEO * rad + (1e-9 * rad if polar else 0.0), nontrivial=special,
+                     signature=f"C04/geodetic/roundtrip/{hemi}", observed=rt, expected=exp, item=item)
+            res.observe(out)
+        if alts:
+            # geocentric <-> geodetic latitude of the surface point
+            lat = la * DEG
+            surf = fr.geodetic_to_ecef(lat, 0.3, 0.0)
+            gc = math.atan2(surf[2], math.hypot(surf[0], surf[1]))
+            g1 = float(M.geodetic2geocentric(lat))
+            g2 = float(M.geocentric2geodetic(gc))
+            tol = 1e-12 if abs(la) < 89.9 else 1e-9  # tan() conditioning near the pole
+            res.case("geodetic/geodetic2geocentric", {"lat": la}, abs(g1 - gc) <= tol, nontrivial=la != 0.0,
+                     signature="C04/geodetic/geodetic2geocentric", observed=g1, expected=gc, item=item)
+            res.case("geodetic/geocentric2geodetic", {"lat": la}, abs(g2 - lat) <= tol, nontrivial=la != 0.0,
+                     signature="C04/geodetic/geocentric2geodetic", observed=g2, expected=lat, item=item)
+    if part == 0:
+        b = RE * math.sqrt(1.0 - fr.ECC_EARTH**2)
+        for r in RADII + [b, b + 0.4]:
+            for sgn in (1.0, -1.0):
+                out = np.asarray(M.ecef2lla(np.array([0.0, 0.0, sgn * r, 0.0, 0.0, 0.0])), dtype=float)
+                ok = _finite(out) and abs(out[0] - sgn * math.pi / 2) <= 1e-9 and abs(out[2] - (r - b)) <= REL_GEO * r
+                res.either_way += 1
+                res.case("geodetic/ecef2lla_on_axis", {"z": sgn * r}, bool(ok), nontrivial=True,
+                         signature=f"C04/geodetic/ecef2lla/{'north' if sgn > 0 else 'south'}/on_axis", observed=out,
+                         expected=[sgn * math.pi / 2, None, r - b], item=item)
+            for lo in (0.0, 90.0, 180.0, -90.0, 135.0):  # exactly in the equatorial plane (r_k == 0 branch)
+                p = [r * math.cos(lo * DEG), r * math.sin(lo * DEG), 0.0]
+                out = np.asarray(M.ecef2lla(np.array(p + [0.0, 0.0, 0.0])), dtype=float)
+                ok = _finite(out) and abs(out[0]) <= TOL_LAT and abs(out[2] - (r - RE)) <= REL_GEO * r and abs(fr.angle_diff(out[1], lo * DEG)) <= 1e-12
+                res.case("geodetic/ecef2lla_equatorial_plane", {"r": r, "lon": lo}, bool(ok), nontrivial=True,
+                         signature="C04/geodetic/ecef2lla/equator/plane", observed=out, expected=[0.0, lo * DEG, r - RE], item=item)
+
+
+# ---------------------------------------------------------------------------------------------- SEZ
+SEZ_VECS = [(1000.0, 0, 0), (-1000.0, 0, 0), (0, 1000.0, 0), (0, -1000.0, 0), (0, 0, 1000.0), (0, 0, -1000.0),
+            (300.0, -700.0, 200.0), (-12000.0, 25000.0, 31000.0)]
+SEZ_VELS = [(0.0, 0.0, 0.0), (1.0, -2.0, 3.0)]
+
+
+def _run_sez(res, item):
+    _, seed, tier = item
+    sites = _sites("thorough", seed)
+    dates = [CORNER_DATES[7], CORNER_DATES[10]] + ([CORNER_DATES[0], CORNER_DATES[3]] if tier == "thorough" else [])
+    mats = {t: (_impl_mats(t), _own_omega(t)) for t in dates}
+    b_pol = RE * math.sqrt(1.0 - fr.ECC_EARTH**2)
+    for la, lo in sites:
+        lat, lon = la * DEG, lo * DEG
+        special = abs(la) == 90.0 or la == 0.0 or lo in (0.0, 90.0, -90.0, -180.0) or abs(lo) > 179.9
+        # zenith axis = outward normal of the reference ellipsoid at the site
+        zen = np.asarray(M.sez2ecef(np.array([0, 0, 1.0, 0, 0, 0]), lat, lon), dtype=float)[:3]
+        surf = fr.geodetic_to_ecef(lat, lon, 0.0)
+        grad = fr.unit([surf[0] / RE**2, surf[1] / RE**2, surf[2] / b_pol**2])
+        res.case("sez/zenith_is_ellipsoid_normal", {"lat": la, "lon": lo}, _maxabs(zen, grad) <= 1e-12 and _maxabs(zen, fr.ellipsoid_normal(lat, lon)) <= 1e-15,
+                 nontrivial=special, signature="C04/sez/zenith_normal", observed=zen, expected=grad, item=item)
+        for p in SEZ_VECS:
+            for v in SEZ_VELS:
+                x = np.array(list(p) + list(v), dtype=float)
+                case = {"lat": la, "lon": lo, "x": list(x)}
+                scale = float(np.linalg.norm(x[:3]))
+                e1 = np.asarray(M.sez2ecef(x, lat, lon), dtype=float)
+                exp1 = fr.sez_to_ecef(x[:3], lat, lon) + fr.sez_to_ecef(x[3:], lat, lon)
+                res.case("sez/sez2ecef_reference", case, e1.shape == (6,) and _maxabs(e1[:3], exp1[:3]) <= 1e-14 * scale and _maxabs(e1[3:], exp1[3:]) <= 1e-14 * 4,
+                         nontrivial=special, signature="C04/sez/sez2ecef", observed=e1, expected=exp1, item=item)
+                e2 = np.asarray(M.ecef2sez(x, lat, lon), dtype=float)
+                exp2 = fr.ecef_to_sez(x[:3], lat, lon) + fr.ecef_to_sez(x[3:], lat, lon)
+                res.case("sez/ecef2sez_reference", case, e2.shape == (6,) and _maxabs(e2[:3], exp2[:3]) <= 1e-14 * scale and _maxabs(e2[3:], exp2[3:]) <= 1e-14 * 4,
+                         nontrivial=special, signature="C04/sez/ecef2sez", observed=e2, expected=exp2, item=item)
+                rt1 = np.asarray(M.ecef2sez(e1, lat, lon), dtype=float)
+                rt2 = np.asarray(M.sez2ecef(e2, lat, lon), dtype=float)
+                ok = _maxabs(rt1[:3], x[:3]) <= 1e-14 * scale and _maxabs(rt2[:3], x[:3]) <= 1e-14 * scale and _maxabs(rt1[3:], x[3:]) <= 1e-14 * 4 and _maxabs(rt2[3:], x[3:]) <= 1e-14 * 4
+                ok = ok and abs(np.linalg.norm(e1[:3]) - scale) <= 1e-14 * scale and abs(np.linalg.norm(e2[:3]) - scale) <= 1e-14 * scale
+                res.case("sez/roundtrip_rigid", case, bool(ok), nontrivial=special, signature="C04/sez/roundtrip", observed=rt1, expected=x, item=item)
+                res.observe(e1, e2)
+        # ECI variants (relative vectors carried through the full state transform, as the implementation documents)
+        for t, ((rp, pnr, w), omega) in mats.items():
+            for p, v in ((SEZ_VECS[6], SEZ_VELS[1]), (SEZ_VECS[4], SEZ_VELS[0]), (SEZ_VECS[7], SEZ_VELS[1])):
+                x = np.array(list(p) + list(v), dtype=float)
+                case = {"lat": la, "lon": lo, "x": list(x), "t": _iso(t)}
+                scale = float(np.linalg.norm(x[:3]))
+                got = np.asarray(M.sez2eci(x, lat, lon, t), dtype=float)
+                exp = _compose_ecef2eci(fr.sez_to_ecef(x[:3], lat, lon) + fr.sez_to_ecef(x[3:], lat, lon), pnr, w, omega)
+                res.case("sez/sez2eci_reference", case, _maxabs(got[:3], exp[:3]) <= 4e-12 * scale and _maxabs(got[3:], exp[3:]) <= 1e-12 + 1e-15 * scale,
+                         nontrivial=True, signature="C04/sez/sez2eci", observed=got, expected=exp, item=item)
+                e = _compose_eci2ecef(x, pnr, w, omega)
+                exp2 = fr.ecef_to_sez(e[:3], lat, lon) + fr.ecef_to_sez(e[3:], lat, lon)
+                got2 = np.asarray(M.eci2sez(x, lat, lon, t), dtype=float)
+                res.case("sez/eci2sez_reference", case, _maxabs(got2[:3], exp2[:3]) <= 4e-12 * scale and _maxabs(got2[3:], exp2[3:]) <= 1e-12 + 1e-15 * scale,
+                         nontrivial=True, signature="C04/sez/eci2sez", observed=got2, expected=exp2, item=item)
+                back = np.asarray(M.eci2sez(got, lat, lon, t), dtype=float)
+                res.case("sez/eci_roundtrip", case, _maxabs(back[:3], x[:3]) <= 4e-12 * scale and _maxabs(back[3:], x[3:]) <= 1e-12 + 1e-15 * scale
+                         and abs(np.linalg.norm(got[:3]) - scale) <= 1e-12 * scale,
+                         nontrivial=True, signature="C04/sez/eci_roundtrip", observed=back, expected=x, item=item)
+
+
+# ---------------------------------------------------------------------------------------------- az/el <-> ra/dec
+ELS = [-5.0, 0.0, 30.0, 89.999]
+AZS = [0.0, 90.0, 180.0, 270.0, 359.9999, 45.0]
+RNGS = [500.0, 40000.0]
+RATES = [(0.0, 0.0, 0.0), (1.5, 1e-3, -2e-3), (-0.7, -5e-4, 1e-4)]
+
+
+def _angle_ok(a, b, tol):
+    return abs(fr.angle_diff(float(a), float(b))) <= tol
+
+
+def _cmp_polar(got, exp, rng_tol, ang_tol, rate_tol, angrate_tol, skip_ang2=False):
+    """(rng, ang1, ang2, rng_rate, ang1_rate, ang2_rate) comparison; ang2 in [0, 2pi).
+
+    Error model: a direction error eps (<= ang_tol) of the relative vector shows as eps in ang1, eps/cos(ang1) in
+    ang2, eps*w/cos in ang1_rate and eps*w/cos^2 in ang2_rate, w = |relative velocity|/range (conditioning of the
+    spherical angles near their pole; well-conditioned cases keep the base tolerances).  ang1 is produced by
+    arcsin(z/rng) (Vallado alg. 27), whose rounding is amplified by 1/cos(ang1): + 2e-15/cos.
+    """
+    got = [float(v) for v in got]
+    exp = [float(v) for v in exp]
+    c = max(math.cos(exp[1]), 1e-6)
+    wrate = math.sqrt(exp[4] ** 2 + (exp[5] * c) ** 2 + (exp[3] / exp[0]) ** 2)
+    ok = len(got) == 6 and all(math.isfinite(v) for v in got)
+    ok = ok and abs(got[0] - exp[0]) <= rng_tol and abs(got[1] - exp[1]) <= ang_tol + 2e-15 / c and abs(got[3] - exp[3]) <= rate_tol
+    ok = ok and abs(got[4] - exp[4]) <= angrate_tol + ang_tol * wrate / c
+    if not skip_ang2:
+        ok = ok and _angle_ok(got[2], exp[2], ang_tol / c) and 0.0 <= got[2] < 2 * math.pi + 1e-15
+        ok = ok and abs(got[5] - exp[5]) <= angrate_tol / c + ang_tol * wrate / (c * c)
+    return bool(ok)
+
+
+def _run_razel(res, item):
+    _, iso, sites, seed = item
+    t = _dt(iso)
+    rp, pnr, w = _impl_mats(t)
+    omega = _own_omega(t)
+    azs = AZS + [(seed * 53.7 + 11.0) % 360.0]
+    for la, lo in sites:
+        lat, lon = la * DEG, lo * DEG
+        obs_ecef = fr.geodetic_to_ecef(lat, lon, 0.1) + [0.0, 0.0, 0.0]
+        obs_eci = _compose_ecef2eci(obs_ecef, pnr, w, omega)
+        site_special = abs(la) == 90.0 or la == 0.0 or lo in (0.0, 90.0, -90.0, -180.0) or abs(lo) > 179.9
+        # at the exact pole the recovered site longitude is arbitrary, hence the SEZ azimuth origin: either-way
+        polar_site = abs(la) == 90.0
+        for el_d in ELS:
+            for az_d in azs:
+                for rng in RNGS:
+                    for rr, er, ar in RATES:
+                        el, az = el_d * DEG, az_d * DEG
+                        case = {"t": iso, "lat": la, "lon": lo, "el": el_d, "az": az_d, "rng": rng, "rates": [rr, er, ar]}
+                        nt = site_special or az_d in (0.0, 90.0, 180.0, 270.0, 359.9999) or el_d in (0.0, 89.999)
+                        sez = fr.razel_to_sez(rng, el, az, rr, er, ar)
+                        got_sez = np.asarray(M.razel2sez(rng, el, az, rr, er, ar), dtype=float)
+                        res.case("razel/razel2sez_reference", case, got_sez.shape == (6,) and _maxabs(got_sez[:3], sez[:3]) <= 1e-13 * rng and _maxabs(got_sez[3:], sez[3:]) <= 1e-13 * (2 + rng * 3e-3),
+                                 nontrivial=nt, signature="C04/razel/razel2sez", observed=got_sez, expected=sez, item=item)
+                        # amplification near the zenith: azimuth error = position rounding / (rng cos el)
+                        atol = 1e-13  # direction rounding of the SEZ vector; scaled by 1/cos(el) inside _cmp_polar
+                        back = M.sez2razel(np.array(sez))
+                        res.case("razel/sez2razel_inverse", case, _cmp_polar(back, (rng, el, az % (2 * math.pi), rr, er, ar), 1e-12 * rng, atol, 1e-12 * (2 + rng * 3e-3), atol),
+                                 nontrivial=nt, signature="C04/razel/sez2razel", observed=[float(v) for v in back], expected=[rng, el, az, rr, er, ar], item=item)
+                        if polar_site:
+                            res.either_way += 1
+                            continue
+                        # own chain: site SEZ -> ECEF -> ECI (state transport), relative to the observer
+                        d_ecef = fr.sez_to_ecef(sez[:3], lat, lon) + fr.sez_to_ecef(sez[3:], lat, lon)
+                        tgt_ecef = [a + b for a, b in zip(obs_ecef, d_ecef)]
+                        tgt_eci = _compose_ecef2eci(tgt_ecef, pnr, w, omega)
+                        rel = tgt_eci - obs_eci
+                        exp = fr.polar_from_cartesian(rel)
+                        # recovered site latitude carries <= 1e-10 rad (ecef2lla rounding): angles to 2e-9, range rigid
+                        got = M.razel2radec(rng, el, az, rr, er, ar, obs_eci, t)
+                        res.case("razel/razel2radec_reference", case, _cmp_polar(got, exp, 1e-8, 2e-9, 1e-9, 1e-11),
+                                 nontrivial=nt, signature="C04/razel/razel2radec", observed=[float(v) for v in got], expected=list(exp), item=item)
+                        rt = M.radec2razel(*[float(v) for v in got], obs_eci, t)
+                        res.case("razel/radec2razel_inverse", case, _cmp_polar(rt, (rng, el, az % (2 * math.pi), rr, er, ar), 1e-8, 2e-9, 1e-9, 1e-11),
+                                 nontrivial=nt, signature="C04/razel/radec2razel", observed=[float(v) for v in rt], expected=[rng, el, az, rr, er, ar], item=item)
+                        if rr == 1.5:
+                            g2 = M.eci2razel(tgt_eci, obs_eci, t)
+                            res.case("razel/eci2razel", case, _cmp_polar(g2, (rng, el, az % (2 * math.pi), rr, er, ar), 1e-8, 2e-9, 1e-9, 1e-11),
+                                     nontrivial=nt, signature="C04/razel/eci2razel", observed=[float(v) for v in g2], expected=[rng, el, az, rr, er, ar], item=item)
+                            g3 = M.eci2radec(tgt_eci, obs_eci, t)
+                            res.case("razel/eci2radec", case, _cmp_polar(g3, exp, 1e-8, 2e-9, 1e-9, 1e-11),
+                                     nontrivial=nt, signature="C04/razel/eci2radec", observed=[float(v) for v in g3], expected=list(exp), item=item)
+                            g4 = np.asarray(M.getSlantRangeVector(obs_eci, tgt_eci, t), dtype=float)
+                            res.case("razel/getSlantRangeVector", case, _maxabs(g4[:3], sez[:3]) <= 1e-8 + 2e-9 * rng and _maxabs(g4[3:], sez[3:]) <= 1e-9 + 2e-9 * (2 + rng * 3e-3),
+                                     nontrivial=nt, signature="C04/razel/getSlantRangeVector", observed=g4, expected=sez, item=item)
+                            if t.microsecond == 0:
+                                ob = SimpleNamespace(range_km=rng, elevation_rad=el, azimuth_rad=az, julian_date=float(datetimeToJulianDate(t)), sensor_eci=obs_eci)
+                                g5 = np.asarray(M.radarObs2eciPosition(ob), dtype=float)
+                                res.case("razel/radarObs2eciPosition", case, g5.shape == (3,) and _maxabs(g5, tgt_eci[:3]) <= 1e-8 + 2e-9 * rng,
+                                         nontrivial=nt, signature="C04/razel/radarObs2eciPosition", observed=g5, expected=tgt_eci[:3], item=item)
+                        res.observe(np.array([float(v) for v in got]))
+
+
+def _run_spherical(res, item):
+    """spherical2cartesian / cartesian2spherical incl. the on-axis branch (angles from the velocity heading)."""
+    for rho in (1.0, 42164.0):
+        for th_d in (-90.0, -45.0, 0.0, 30.0, 89.999, 90.0):
+            for ph_d in (0.0, 90.0, 180.0, 270.0, 359.9999, 200.0):
+                for rates in RATES:
+                    th, ph = th_d * DEG, ph_d * DEG
+                    case = {"rho": rho, "theta": th_d, "phi": ph_d, "rates": list(rates)}
+                    got = np.asarray(M.spherical2cartesian(rho, th, ph, *rates), dtype=float)
+                    ct, st, cp, sp = math.cos(th), math.sin(th), math.cos(ph), math.sin(ph)
+                    pos = [rho * ct * cp, rho * ct * sp, rho * st]
+                    # velocity by differentiating the position map: d/dt = rho_dot d/drho + th_dot d/dth + ph_dot d/dph
+                    vel = [rates[0] * ct * cp + rates[1] * (-rho * st * cp) + rates[2] * (-rho * ct * sp),
+                           rates[0] * ct * sp + rates[1] * (-rho * st * sp) + rates[2] * (rho * ct * cp),
+                           rates[0] * st + rates[1] * (rho * ct)]
+                    res.case("spherical/spherical2cartesian", case, _maxabs(got[:3], pos) <= 1e-14 * rho and _maxabs(got[3:], vel) <= 1e-14 * (2 + rho * 3e-3),
+                             nontrivial=th_d in (0.0, 90.0, -90.0) or ph_d != 200.0, signature="C04/spherical/spherical2cartesian", observed=got, expected=pos + vel, item=item)
+                    if abs(th_d) < 90.0:
+                        back = M.cartesian2spherical(np.array(pos + vel))
+                        atol = 1e-13
+                        res.case("spherical/cartesian2spherical", case, _cmp_polar(back, (rho, th, ph % (2 * math.pi), *rates), 1e-13 * rho, atol, 1e-13 * (2 + rho * 3e-3), atol),
+                                 nontrivial=True, signature="C04/spherical/cartesian2spherical", observed=[float(v) for v in back], expected=[rho, th, ph, *rates], item=item)
+                        own = fr.polar_from_cartesian(pos + vel)
+                        res.case("spherical/reference_inverse_selfcheck", case, _cmp_polar(own, (rho, th, ph % (2 * math.pi), *rates), 1e-13 * rho, atol, 1e-13 * (2 + rho * 3e-3), atol),
+                                 signature="C04/spherical/oracle_selfcheck", item=item)
+        # exactly on the polar axis: documented behaviour - angle from the horizontal velocity, angular rates zero
+        for sgn in (1.0, -1.0):
+            for vx, vy, vz in ((1.0, 0.0, 0.5), (0.0, -2.0, 0.0), (-1.0, 1.0, -3.0), (-3.0, -4.0, 1.0)):
+                x = np.array([0.0, 0.0, sgn * rho, vx, vy, vz])
+                r_, th_, ph_, rd_, td_, pd_ = (float(v) for v in M.cartesian2spherical(x))
+                ok = abs(r_ - rho) <= 1e-14 * rho and abs(th_ - sgn * math.pi / 2) <= 1e-15 and abs(rd_ - sgn * vz) <= 1e-14 * 4
+                ok = ok and _angle_ok(ph_, math.atan2(vy, vx), 1e-14) and 0 <= ph_ < 2 * math.pi and td_ == 0 and pd_ == 0
+                res.case("spherical/on_axis_branch", {"x": list(x)}, bool(ok), nontrivial=True, signature="C04/spherical/on_axis",
+                         observed=[r_, th_, ph_, rd_, td_, pd_], expected=[rho, sgn * math.pi / 2, math.atan2(vy, vx) % (2 * math.pi), sgn * vz, 0, 0], item=item)
+                # through sez2razel: zenith target, azimuth = heading of the horizontal velocity (S axis flipped)
+                out = [float(v) for v in M.sez2razel(x)]
+                ok2 = abs(out[0] - rho) <= 1e-14 * rho and abs(out[1] - sgn * math.pi / 2) <= 1e-15 and _angle_ok(out[2], math.atan2(vy, -vx), 1e-14)
+                res.case("spherical/sez2razel_at_zenith", {"x": list(x)}, bool(ok2), nontrivial=True, signature="C04/spherical/zenith",
+                         observed=out, expected=[rho, sgn * math.pi / 2, math.atan2(vy, -vx) % (2 * math.pi)], item=item)
+
+
+# ---------------------------------------------------------------------------------------------- RSW / NTW
+def _orbit_states(tier):
+    mu = 398600.4415
+    out = []
+    vc = math.sqrt(mu / 7000.0)
+    out += [
+        ("circ_equatorial", [7000.0, 0, 0, 0, vc, 0]),
+        ("circ_equatorial_retro", [7000.0, 0, 0, 0, -vc, 0]),
+        ("circ_polar", [0, 7000.0, 0, 0, 0, vc]),
+        ("circ_polar_at_pole", [0, 0, 7000.0, vc, 0, 0]),
+        ("on_neg_axes", [-7000.0, 0, 0, 0, 0, -vc]),
+        ("geo", [0, -42164.0, 0, 3.0746, 0, 0]),
+        ("ecc_outbound", [6800.0, 1200.0, -900.0, -1.9, 7.1, 2.8]),
+        ("ecc_inbound", [-15000.0, 22000.0, 8000.0, -2.1, -2.6, 0.9]),
+        ("hyperbolic_like", [9000.0, -500.0, 100.0, 6.0, 9.0, -1.0]),
+    ]
+    if tier == "thorough":
+        for k in range(24):
+            a = k * math.pi / 12
+            out.append((f"incl_{k}", [8000.0 * math.cos(a), 8000.0 * math.sin(a) * 0.6, 8000.0 * math.sin(a) * 0.8,
+                                       -6.5 * math.sin(a) + 0.8 * math.cos(a), 6.5 * math.cos(a) * 0.6, 6.5 * math.cos(a) * 0.8 + 0.3]))
+    return out
+
+
+REL = [(1.0, 0, 0), (-1.0, 0, 0), (0, 1.0, 0), (0, -1.0, 0), (0, 0, 1.0), (0, 0, -1.0), (12.5, -30.0, 7.25)]
+RELV = [(0.0, 0.0, 0.0), (0.01, -0.02, 0.03)]
+
+
+def _run_rswntw(res, item):
+    _, seed, tier = item
+    for name, st in _orbit_states(tier):
+        x = np.array(st, dtype=float)
+        rsw = fr.rsw_basis(st)
+        ntw = fr.ntw_basis(st)
+        radial_v = abs(sum(a * b for a, b in zip(st[:3], st[3:]))) > 1e-6
+        # reference bases are right-handed orthonormal triads (oracle self-check)
+        for bname, bs in (("rsw", rsw), ("ntw", ntw)):
+            g = np.array(bs)
+            res.case("satframe/reference_triads", {"orbit": name, "frame": bname}, _maxabs(g @ g.T, np.eye(3)) <= 1e-14 and abs(np.linalg.det(g) - 1.0) <= 1e-14,
+                     signature="C04/satframe/oracle_selfcheck", item=item)
+        for dp in REL:
+            for dv in RELV:
+                rel = np.array(list(dp) + list(dv), dtype=float)
+                case = {"orbit": name, "rel": list(rel)}
+                nt = True
+                scale = float(np.linalg.norm(rel[:3]))
+                # RSW: eci2rsw(target, chaser) = components of (chaser-target) on R,S,W
+                chaser = x + rel
+                got = np.asarray(M.eci2rsw(x, chaser), dtype=float)
+                exp = fr.project(rsw, rel[:3]) + fr.project(rsw, rel[3:])
+                # chaser - target loses |x|*eps = 1e-12 km
+                res.case("satframe/eci2rsw_reference", case, got.shape == (6,) and _maxabs(got[:3], exp[:3]) <= 2e-11 and _maxabs(got[3:], exp[3:]) <= 1e-14,
+                         nontrivial=nt, signature="C04/satframe/eci2rsw", observed=got, expected=exp, outcome="radial_v" if radial_v else "perp", item=item)
+                got2 = np.asarray(M.rsw2eci(x, rel), dtype=float)
+                exp2 = fr.combine(rsw, rel[:3]) + fr.combine(rsw, rel[3:])
+                res.case("satframe/rsw2eci_reference", case, got2.shape == (6,) and _maxabs(got2[:3], exp2[:3]) <= 1e-14 * scale and _maxabs(got2[3:], exp2[3:]) <= 1e-15,
+                         nontrivial=nt, signature="C04/satframe/rsw2eci", observed=got2, expected=exp2, item=item)
+                rt = np.asarray(M.rsw2eci(x, got), dtype=float)
+                ok = _maxabs(rt[:3], rel[:3]) <= 2e-11 and _maxabs(rt[3:], rel[3:]) <= 1e-14 and abs(np.linalg.norm(got[:3]) - scale) <= 2e-11
+                rt2 = np.asarray(M.eci2rsw(x, x + got2), dtype=float)
+                ok = ok and _maxabs(rt2[:3], rel[:3]) <= 2e-11 and _maxabs(rt2[3:], rel[3:]) <= 1e-14
+                res.case("satframe/rsw_roundtrip_rigid", case, bool(ok), nontrivial=nt, signature="C04/satframe/rsw_roundtrip", observed=rt, expected=rel, item=item)
+                # NTW
+                got3 = np.asarray(M.ntw2eci(x, rel), dtype=float)
+                exp3 = fr.combine(ntw, rel[:3]) + fr.combine(ntw, rel[3:])
+                res.case("satframe/ntw2eci_reference", case, got3.shape == (6,) and _maxabs(got3[:3], exp3[:3]) <= 1e-14 * scale and _maxabs(got3[3:], exp3[3:]) <= 1e-15,
+                         nontrivial=nt, signature="C04/satframe/ntw2eci", observed=got3, expected=exp3, item=item)
+                inv = fr.project(ntw, got3[:3]) + fr.project(ntw, got3[3:])
+                ok = _maxabs(inv, rel) <= 1e-13 * max(scale, 1.0) and abs(np.linalg.norm(got3[:3]) - scale) <= 1e-13 * scale
+                if not radial_v:  # circular-type state: the two frames coincide (N = R, T = S)
+                    ok = ok and _maxabs(got3, got2) <= 1e-13 * scale
+                res.case("satframe/ntw_inverse_rigid", case, bool(ok), nontrivial=nt, signature="C04/satframe/ntw_inverse", observed=inv, expected=rel, item=item)
+                res.observe(got, got2, got3)
+    _run_spherical(res, item)
+
+
+# ---------------------------------------------------------------------------------------------- dispatch
+_RUNNERS = {
+    "maths": _run_maths,
+    "anchor": _run_anchor,
+    "loader_api": _run_loader_api,
+    "dayofyear": _run_dayofyear,
+    "seconds2hms": _run_seconds2hms,
+    "sidereal": _run_sidereal,
+    "days": _run_days,
+    "sweep_min": _run_sweep_min,
+    "sweep_sec": _run_sweep_sec,
+    "eci_ecef": _run_eci_ecef,
+    "geodetic": _run_geodetic,
+    "sez": _run_sez,
+    "razel": _run_razel,
+    "rswntw": _run_rswntw,
+}
+
+
+def _impl_exception(exc):
+    """(function, file) of the resonaate frame an exception passed through after leaving the check's own code, else None.
+
+    An exception raised while the implementation is executing (MissingEOP for a day of the table, ValueError from
+    JulianDate on a TT roll-over, NaN rejected by scipy.norm, ...) is a finding about the implementation, not a harness
+    error; an exception in the check's own code is re-raised and becomes exit 2.
+    """
+    import os  # noqa: PLC0415
+    import traceback  # noqa: PLC0415
+
+    frames = traceback.extract_tb(exc.__traceback__)
+    marker = os.sep + "resonaate" + os.sep
+    last_own = max((k for k, f in enumerate(frames) if (os.sep + "verif" + os.sep) in f.filename), default=-1)
+    inside = [f for f in frames[last_own + 1 :] if marker in f.filename]
+    if not inside:
+        return None
+    return inside[0].name, inside[-1].name
+
+
+def run_item(item):
+    res = fw.Result()
+    item = list(item)
+    try:
+        _RUNNERS[item[0]](res, item)
+    except Exception as exc:  # noqa: BLE001
+        where = _impl_exception(exc)
+        if where is None:
+            raise
+        res.case(f"no_exception/{item[0]}", {"item": fw.jsonable(item), "entered": where[0], "raised_in": where[1]}, False,
+                 nontrivial=True, signature=f"C04/exception/{item[0]}/{where[0]}/{type(exc).__name__}",
+                 observed=f"{type(exc).__name__}: {exc}"[:300], expected="no exception on an input of the announced lattice",
+                 item=item)
+        res.cap(f"item {item[0]} aborted by an implementation exception; remaining cases of that item not evaluated")
+    return res
